@@ -154,6 +154,22 @@ theorem dist_seg_spec (sqrt : α → α) (hs : SqrtOK sqrt) (x0 y0 x1 y1 x2 y2 :
     exact q2_clamp_min x0 y0 x1 y1 x2 y2 t hne h0 h1
 
 
+/-- the square-root-free form: `distance_to_segment² = distSegSq` -/
+theorem dist_sq_eq (sqrt : α → α) (hs : SqrtOK sqrt) (x0 y0 x1 y1 x2 y2 : α) :
+    distanceToSegment sqrt x0 y0 x1 y1 x2 y2 * distanceToSegment sqrt x0 y0 x1 y1 x2 y2 =
+      distSegSq x0 y0 x1 y1 x2 y2 := by
+  obtain ⟨_, ⟨t', h0, h1, he⟩, hmin⟩ := dist_seg_spec sqrt hs x0 y0 x1 y1 x2 y2
+  simp only [distSegSq, pmax_eq, pmin_eq, beq_iff_eq]
+  split
+  · rename_i hz
+    have hdx := (mul_self_add_mul_self_eq_zero.mp hz).1
+    have hdy := (mul_self_add_mul_self_eq_zero.mp hz).2
+    rw [he]; unfold q2; rw [hdx, hdy]; ring
+  · rename_i hnz
+    apply le_antisymm
+    · exact hmin _ (max0min1_mem _).1 (max0min1_mem _).2
+    · rw [he]; exact q2_clamp_min x0 y0 x1 y1 x2 y2 t' hnz h0 h1
+
 /-- a fix is at distance 0 from a chord that starts at it -/
 theorem distFix_self (sqrt : α → α) (hs : SqrtOK sqrt) (a b : Fix α) : distFix sqrt a b a = 0 := by
   obtain ⟨h0, _, hmin⟩ := dist_seg_spec sqrt hs a.x a.y a.x a.y b.x b.y
@@ -237,6 +253,48 @@ theorem dpFuel_tolerance (sqrt : α → α) (hs : SqrtOK sqrt) (eps : α) (fuel 
   intro p hp
   rcases dpFuel_cover sqrt hs eps fuel L out h p hp with hm | hc
   · have hlen := dpFuel_two_le sqrt eps fuel L out h h2
+    have he : (0 : α) ≤ eps * eps := mul_self_nonneg eps
+    obtain ⟨q, hq | hq⟩ := mem_pair p out hm hlen
+    · refine ⟨p, q, hq, 0, le_refl _, zero_le_one, ?_⟩
+      have : q2 p.x p.y p.x p.y q.x q.y 0 = 0 := by unfold q2; ring
+      rw [this]; exact he
+    · refine ⟨q, p, hq, 1, zero_le_one, le_refl _, ?_⟩
+      have : q2 p.x p.y q.x q.y p.x p.y 1 = 0 := by unfold q2; ring
+      rw [this]; exact he
+  · exact hc
+
+
+theorem dpAllFuel_cover (sqrt : α → α) (hs : SqrtOK sqrt) (eps : α) (fuel : Nat)
+    (L out : List (Fix α)) (h : out ∈ dpAllFuel sqrt eps fuel L) :
+    ∀ p ∈ L, p ∈ out ∨ Covered (eps * eps) out p := by
+  refine dpAllFuel_ind sqrt eps (fun L out => ∀ p ∈ L, p ∈ out ∨ Covered (eps * eps) out p) ?_ ?_ ?_ fuel L out h
+  · intro L _ p hp; exact Or.inl hp
+  · intro a p q rest hlt x hx
+    right
+    refine ⟨a, chordEnd q rest, List.infix_refl _, ?_⟩
+    have hle := (farthest_ub sqrt a (chordEnd q rest) (a :: p :: q :: rest) 0 0 0).2 x hx
+    obtain ⟨h0, ⟨t, ht0, ht1, hq⟩, _⟩ := dist_seg_spec sqrt hs x.x x.y a.x a.y (chordEnd q rest).x (chordEnd q rest).y
+    refine ⟨t, ht0, ht1, ?_⟩
+    rw [← hq]
+    have hd : distanceToSegment sqrt x.x x.y a.x a.y (chordEnd q rest).x (chordEnd q rest).y ≤ eps :=
+      le_of_lt (lt_of_le_of_lt hle hlt)
+    exact mul_self_le_mul_self h0 hd
+  · intro L i o1 o2 h1 h2 x hx
+    rw [← List.take_append_drop i L] at hx
+    rcases List.mem_append.mp hx with hx | hx
+    · rcases h1 x hx with hm | ⟨u, v, hi, hn⟩
+      · exact Or.inl (List.mem_append_left _ hm)
+      · exact Or.inr ⟨u, v, hi.trans (List.prefix_append o1 o2).isInfix, hn⟩
+    · rcases h2 x hx with hm | ⟨u, v, hi, hn⟩
+      · exact Or.inl (List.mem_append_right _ hm)
+      · exact Or.inr ⟨u, v, hi.trans (List.suffix_append o1 o2).isInfix, hn⟩
+
+theorem dpAllFuel_tolerance (sqrt : α → α) (hs : SqrtOK sqrt) (eps : α) (fuel : Nat)
+    (L out : List (Fix α)) (h : out ∈ dpAllFuel sqrt eps fuel L) (h2 : 2 ≤ L.length) :
+    ∀ p ∈ L, Covered (eps * eps) out p := by
+  intro p hp
+  rcases dpAllFuel_cover sqrt hs eps fuel L out h p hp with hm | hc
+  · have hlen := dpAllFuel_two_le sqrt eps fuel L out h h2
     have he : (0 : α) ≤ eps * eps := mul_self_nonneg eps
     obtain ⟨q, hq | hq⟩ := mem_pair p out hm hlen
     · refine ⟨p, q, hq, 0, le_refl _, zero_le_one, ?_⟩
